@@ -202,7 +202,13 @@ def oStep (st : OState) (x : Nat × List String × List String) : OState :=
           let st := if seenT then st.fail ln "step reported completion and later non-completion" else st
           (st, i + 1, seenT)
         else if r == "software" then (judge st ln "software" stepNo, i + 1, seenT)
-        else if r == "timeout" then (judge st ln "timeout" stepNo, i + 1, seenT)
+        else if r == "timeout" then
+          -- a step that *begins* beyond the duration with a client not yet finished reports the timeout at once,
+          -- before running anybody (the rule `run` follows, F-C11-1): judged on the state before this step
+          let before := stepNo - 1
+          let pre := before * st.tick > st.duration &&
+            !(st.sws.filter (·.client)).all (fun c => finishesOk c && latest st.tick c ≤ before)
+          (if pre then st else judge st ln "timeout" stepNo, i + 1, seenT)
         else (judge st ln "panic" stepNo, i + 1, seenT)) (st, 0, false)
       let st := if rest.contains "panic" && !st.sws.any (fun s => s.outcome == "panic") then
           st.fail ln "the simulation panicked although no software panics (a finished software was polled again?)" else st
